@@ -15,6 +15,7 @@ object holds; object identities; byte snapshots) and judged:
   C15_Pure            builders and solveMatrixPDE / solveExplicitPDE leave their inputs byte-identical
   C15_Deterministic   a builder called twice returns bit-identical results
   C15_NoMeshAlias     returned arrays do not alias mesh storage
+  C15_ResultStable    a returned object is not changed by a later call of the same builder with other inputs
 Flag-level differences between spec and code are reported as non-conformance only.
 """
 import contextlib
@@ -98,7 +99,8 @@ class World:
     # ---- snapshots --------------------------------------------------------------------
     def snap_mesh(self):
         np, m = self.np, self.m
-        parts = [np.asarray(m.dims).tobytes()]
+        parts = [np.asarray(m.dims).tobytes()] + [np.asarray(getattr(m, nm)).tobytes() for nm in ("corners", "edges")
+                                                  if hasattr(m, nm)]
         for prop in (m.cellsize, m.cellcenters, m.facecenters):
             for nm in ("_x", "_y", "_z"):
                 parts.append(np.asarray(getattr(prop, nm)).tobytes())
@@ -524,24 +526,27 @@ def build_check(W, v, kind, judge, ctx, wit):
         if a.size:
             setattr(uup, nm, rs.choice([-1.0, 1.0], size=a.shape))
     FL = P.fluxLimiter("SUPERBEE")
-    builders = {
-        "diffusionTerm": lambda: P.diffusionTerm(W.D),
-        "convectionTerm": lambda: P.convectionTerm(u),
-        "convectionUpwindTerm": lambda: (P.convectionUpwindTerm(u), P.convectionUpwindTerm(u, uup)),
-        "convectionTVDupwindRHSTerm": lambda: (P.convectionTVDupwindRHSTerm(u, v, FL),
-                                               P.convectionTVDupwindRHSTerm(u, v, FL, uup)),
-        "transientTerm": lambda: P.transientTerm(v, 0.5, 1.0),
-        "gradientTerm": lambda: P.gradientTerm(v),
-        "divergenceTerm": lambda: P.divergenceTerm(P.gradientTerm(v)),
-        "linearMean": lambda: P.linearMean(v),
-        "arithmeticMean": lambda: P.arithmeticMean(v),
-        "upwindMean": lambda: P.upwindMean(v, u),
-        "linearSourceTerm": lambda: P.linearSourceTerm(v),
-        "constantSourceTerm": lambda: P.constantSourceTerm(v),
-        "boundaryConditionsTerm": lambda: P.boundaryConditionsTerm(v.BCs),
-        "cellLocations": lambda: P.cellLocations(W.m),
-        "faceLocations": lambda: P.faceLocations(W.m),
-    }
+
+    def make(v, u, uup, D):
+        return {
+            "diffusionTerm": lambda: P.diffusionTerm(D),
+            "convectionTerm": lambda: P.convectionTerm(u),
+            "convectionUpwindTerm": lambda: (P.convectionUpwindTerm(u), P.convectionUpwindTerm(u, uup)),
+            "convectionTVDupwindRHSTerm": lambda: (P.convectionTVDupwindRHSTerm(u, v, FL),
+                                                   P.convectionTVDupwindRHSTerm(u, v, FL, uup)),
+            "transientTerm": lambda: P.transientTerm(v, 0.5, 1.0),
+            "gradientTerm": lambda: P.gradientTerm(v),
+            "divergenceTerm": lambda: P.divergenceTerm(P.gradientTerm(v)),
+            "linearMean": lambda: P.linearMean(v),
+            "arithmeticMean": lambda: P.arithmeticMean(v),
+            "upwindMean": lambda: P.upwindMean(v, u),
+            "linearSourceTerm": lambda: P.linearSourceTerm(v),
+            "constantSourceTerm": lambda: P.constantSourceTerm(v),
+            "boundaryConditionsTerm": lambda: P.boundaryConditionsTerm(v.BCs),
+            "cellLocations": lambda: P.cellLocations(W.m),
+            "faceLocations": lambda: P.faceLocations(W.m),
+        }
+    builders = make(v, u, uup, W.D)
     fn = builders[kind]
     def inputs():
         return (W.snap_var(v), [a.tobytes() for a in arrays_of(W.D, np)], [a.tobytes() for a in arrays_of(u, np)],
@@ -556,8 +561,28 @@ def build_check(W, v, kind, judge, ctx, wit):
     b2 = [a.tobytes() for a in arrays_of(r2, np)]
     if b1 != b2:
         judge.bad("C15_Deterministic", dict(ctx, builder=kind), wit)
+    # a returned object stays what it was when the same builder is called with OTHER inputs in between (terms are
+    # reused in time loops while other terms are rebuilt), and the call after that still returns the same bits
+    v2 = P.CellVariable(W.m, 2.0 + 0.5 * np.asarray(v.value)[::-1].reshape(np.asarray(v.value).shape) ** 2)
+    for s_ in W.sides:
+        f_ = getattr(v2.BCs, s_)
+        f_.a[:], f_.b[:], f_.c[:] = 0.5, 2.0, -3.0
+    v2.apply_BCs()
+    u2, uup2, D2 = P.FaceVariable(W.m, -1.25), P.FaceVariable(W.m, -1.0), P.FaceVariable(W.m, 7.0)
+    for nm in ("_xvalue", "_yvalue", "_zvalue"):
+        a = getattr(u2, nm)
+        if a.size:
+            setattr(u2, nm, rs.choice([-2.5, 0.0, 0.25, 3.0], size=a.shape))
+    make(v2, u2, uup2, D2)[kind]()
+    if [a.tobytes() for a in arrays_of(r1, np)] != b1:
+        judge.bad("C15_ResultStable", dict(ctx, builder=kind, what="earlier result changed by a later call"), wit)
+    if [a.tobytes() for a in arrays_of(fn(), np)] != b1:
+        judge.bad("C15_Deterministic", dict(ctx, builder=kind, what="after a call with other inputs"), wit)
+    if inputs() != before:
+        judge.bad("C15_Pure", dict(ctx, builder=kind, what="after a call with other inputs"), wit)
     mesh_arrays = [np.asarray(getattr(p, nm)) for p in (W.m.cellsize, W.m.cellcenters, W.m.facecenters)
-                   for nm in ("_x", "_y", "_z")]
+                   for nm in ("_x", "_y", "_z")] + [np.asarray(getattr(W.m, nm)) for nm in ("dims", "corners", "edges")
+                                                     if isinstance(getattr(W.m, nm, None), np.ndarray)]
     for a in arrays_of(r1, np):
         if a.size and any(np.shares_memory(a, ma) for ma in mesh_arrays if ma.size):
             judge.bad("C15_NoMeshAlias", dict(ctx, builder=kind), wit)
